@@ -43,6 +43,8 @@ type Pipe struct {
 	head int
 	n    int
 
+	EOFWithData bool // see NetCfg
+
 	wclosed bool  // writer closed: reader sees EOF (or rerr) after draining
 	rerr    error // error the reader sees instead of EOF
 	rclosed bool  // reader side closed: writer gets an error, blocked reader wakes
@@ -200,6 +202,9 @@ type NetCfg struct {
 	Window     int
 	Capture    bool
 	NoCoalesce bool
+	// EOFWithData: the Read that takes the last byte of a stream whose writer has
+	// closed returns the bytes together with io.EOF (io.Reader allows both forms)
+	EOFWithData bool
 }
 
 // NewConnPair creates a connected pair (a,b). Bytes written to a are read
@@ -216,6 +221,7 @@ func (s *Sim) NewConnPair(nameA, nameB string, cfgAB, cfgBA NetCfg) (*Conn, *Con
 
 func (p *Pipe) apply(c NetCfg) {
 	p.SegPol = c.SegPol
+	p.EOFWithData = c.EOFWithData
 	p.MSS = c.MSS
 	if p.MSS <= 0 {
 		p.MSS = 1460
@@ -237,6 +243,7 @@ func DrawNetCfg(c *Choice) NetCfg {
 	n.Jitter = []int64{0, 20e3, 3e6}[c.Choose(3, LNetCfg)]
 	n.ShortRd = []int{0, 50, 300}[c.Choose(3, LNetCfg)]
 	n.NoCoalesce = c.Bool(1, 4, LNetCfg)
+	n.EOFWithData = c.Bool(1, 4, LNetCfg)
 	return n
 }
 
@@ -458,6 +465,13 @@ func (c *Conn) Read(b []byte) (int, error) {
 			p.BytesR += int64(n)
 			c.Reads++
 			s.logEv(EvNetRead, int64(n), p.BytesR)
+			if p.EOFWithData && p.n == 0 && p.wclosed {
+				s.logEv(EvNetEOF, 1, p.BytesR)
+				if p.rerr != nil {
+					return n, p.rerr
+				}
+				return n, io.EOF
+			}
 			return n, nil
 		}
 		if p.n == 0 && p.wclosed {
